@@ -177,6 +177,12 @@ func (nmds *NumpyMultiDataset) Append(cs *ColumnSeries, tbk TimeBucketKey) (err 
 			err = errors.New("data shape mismatch of ColumnSeries and NumpyMultiDataset")
 			return
 		}
+		// the appended bytes are decoded under the dataset's column types, so the types must match too
+		typeStr, ok := typeMap[GetElementType(cs.GetColumn(name))]
+		if !ok || idx >= len(nmds.ColumnTypes) || typeStr != nmds.ColumnTypes[idx] {
+			err = errors.New("data type mismatch of ColumnSeries and NumpyMultiDataset")
+			return
+		}
 	}
 	nmds.StartIndex[tbk.String()] = nmds.Length
 	nmds.Lengths[tbk.String()] = cs.Len()
